@@ -27,12 +27,14 @@ def main():
     patch = os.environ.get("SEED_PATCH") or "/verif/seeded/%s/patch.diff" % name
     r = sh("git apply %s" % patch, cwd=REPO); assert r.returncode == 0, r.stderr
     b = sh("cargo build --release", cwd=VERIF + "/harness", env={"CARGO_NET_OFFLINE": "true"})
+    nd = sh("cargo build --profile nodebug", cwd=VERIF + "/harness", env={"CARGO_NET_OFFLINE": "true"})
+    ndbin = VERIF + "/harness/target/nodebug/fvh" if nd.returncode == 0 else ""
     if b.returncode != 0:
         print(json.dumps({"seeded": name, "result": "BUILD_FAILED", "err": b.stderr[-800:]})); return
     for prop in props:
         t0 = time.time()
         try:
-            r = sh("%s/harness/target/release/fvh run %s --tier %s --seed %s" % (VERIF, prop, tier, os.environ.get("VERIF_SEED", "1")), cwd=VERIF, timeout=3600, env={"VERIF_DIR": VERIF})
+            r = sh("%s/harness/target/release/fvh run %s --tier %s --seed %s" % (VERIF, prop, tier, os.environ.get("VERIF_SEED", "1")), cwd=VERIF, timeout=3600, env={"VERIF_DIR": VERIF, "FVH_ND_BIN": ndbin})
             rc = r.returncode
             lines = [l for l in r.stdout.splitlines() if not l.startswith("  class")]
             msg = next((l for l in lines if l.strip().startswith("[") or "died" in l), "")
